@@ -1,6 +1,6 @@
 # C15 - signal: every waiting listener gets every value; disconnect wakes all
 import re
-from ..core import norm, relloc, live, calls, evs, Broken, value_origin, Tracer, fmt_trace, rooted, has_back_edge, cond_event
+from ..core import norm, relloc, live, calls, evs, Broken, value_origin, Tracer, fmt_trace, rooted, has_back_edge, cond_event, pos
 from .. import atomic, publish
 from ..rules import *
 from . import C02
@@ -315,9 +315,27 @@ def whole_chain(ctx, db):
         cs = [e for e in f.events() if e.k == 'call' and norm(e.get('callee')) == 'cocls::awaiter::resume_chain']
         ok = len(cs) == 1 and (cs[0].get('args') or [{}])[0].get('path') == 'this->_chain' and cs[0].get('use') == 'return'
         ctx.ob(rid, f, f['key'], ok, 'notify_awaiters returns resume_chain(_chain)', desc='notify_awaiters does not return resume_chain(_chain)')
+    from . import C02
     for f in db.need('cocls::awaiter::resume_chain')[:1]:
         ops = [e for e in f.events() if e.k == 'call' and atomic.is_atomic_call(e)]
         ok = len(ops) == 1 and atomic.opname(ops[0]) == 'exchange' and (ops[0].get('args') or [{}])[0].get('const') == 0 and flows_only_into(f, ops[0], 'cocls::awaiter::resume_chain_lk') and atomic.acq(atomic.success_order(ops[0]))
+        if not ok and not ops:
+            # the exchange may live in a helper (one exchange primitive shared with resume_chain_set_ready): judged on the helper-expanded paths -
+            # one atomic operation on the chain per path, an exchange installing null, acquiring, whose result goes to the walker
+            trs = [t for t in htracer(db).traces(f) if live(t)]
+            ok = bool(trs)
+            for tr in trs:
+                aops = [it for it in tr if it.k == 'call' and atomic.is_atomic_call(it)]
+                if len(aops) != 1 or atomic.opname(aops[0]) != 'exchange' or not atomic.acq(atomic.success_order(aops[0])):
+                    ok = False; break
+                a0 = (aops[0].get('args') or [{}])[0]
+                val = a0.get('const')
+                if val is None:
+                    o = origin_in_trace(tr, pos(tr, aops[0]), a0.get('path') or '')[0] or a0.get('path') or ''
+                    val = 0 if o in ('nullptr', '0', 'NULL') else None
+                walker = [c for c in tr if c.k == 'call' and norm(c.get('callee')) == 'cocls::awaiter::resume_chain_lk']
+                if val != 0 or len(walker) != 1 or pos(tr, walker[0]) < pos(tr, aops[0]):
+                    ok = False; break
         ctx.ob(rid, f, f['key'], ok, 'resume_chain: exchange(nullptr, >= acquire) feeding resume_chain_lk', desc='resume_chain is not one acquiring exchange(nullptr)')
 
 
